@@ -2,6 +2,7 @@ package h
 
 import (
 	"github.com/hattya/go.sh/ast"
+	"github.com/hattya/go.sh/interp"
 	"github.com/hattya/go.sh/parser"
 	"github.com/hattya/go.sh/printer"
 	"verifharness/nd"
@@ -12,6 +13,24 @@ import (
 //
 // The whole Config is symbolic (five 64-bit Style words, Case, Width 0..8), so
 // every bit pattern is covered by the solver, not 256 combinations.
+
+// parseAllEnv parses every command of a stream with an alias environment.
+func parseAllEnv(env *interp.ExecEnv, s *Scanner) ([]ast.Command, error) {
+	var all []ast.Command
+	for n := 0; n < 64; n++ {
+		cmds, _, err := parser.ParseCommands(env, "src", s)
+		nd.Drain()
+		if err != nil {
+			return all, err
+		}
+		all = append(all, cmds...)
+		if s.I >= len(s.R) {
+			return all, nil
+		}
+	}
+	nd.Fail("parsing the stream does not terminate")
+	return all, nil
+}
 
 // parseAll parses every command of a stream.
 func parseAll(src []rune) ([]ast.Command, error) {
